@@ -87,8 +87,9 @@ type gen struct {
 	self    *gfun // the recursive function whose body is being generated
 	selfN   *gvar
 	selfUse int
-	budget  int // remaining expression nodes for the current program
-	inLet   int // > 0 while generating the right-hand side of a let (no inner functions there)
+	budget  int  // remaining expression nodes for the current program
+	atBlock bool // tiny: the expression about to be generated stands at block level
+	inLet   int  // > 0 while generating the right-hand side of a let (no inner functions there)
 }
 
 func (g *gen) has(f uint64) bool { return g.prof.Features&f != 0 }
@@ -250,6 +251,9 @@ func (g *gen) leaf(t *Type, d int) *Expr {
 	case TSlice:
 		e := &Expr{K: ESlice, ElemT: t.Elem(), T: t}
 		n := g.r.Intn(4)
+		if g.prof.Tiny && n == 0 {
+			n = 1
+		}
 		for i := 0; i < n; i++ {
 			e.Args = append(e.Args, g.leaf(t.Elem(), d))
 		}
@@ -385,6 +389,8 @@ func okExpr(e *Expr) bool {
 }
 
 func (g *gen) expr(t *Type, d int) *Expr {
+	top := g.atBlock || !g.prof.Tiny
+	g.atBlock = false
 	g.budget--
 	switch t.K {
 	case TUnit:
@@ -401,12 +407,18 @@ func (g *gen) expr(t *Type, d int) *Expr {
 		{3, func() *Expr { return g.extCall(t, d) }},
 	}
 	if g.has(FIfValue) {
-		alts = append(alts, alt{2, func() *Expr { return g.ifExpr(t, d) }})
+		if top {
+			alts = append(alts, alt{2, func() *Expr { return g.ifExpr(t, d) }})
+		} else {
+			alts = append(alts, alt{2, func() *Expr { // one-line if
+				return &Expr{K: EIf, Args: []*Expr{g.cond(d)}, T: t, Blocks: []*Block{blockOf(g.expr(t, d-1)), blockOf(g.expr(t, d-1))}}
+			}})
+		}
 	}
-	if g.has(FMatchU) && len(g.unions) > 0 {
+	if g.has(FMatchU) && len(g.unions) > 0 && top {
 		alts = append(alts, alt{2, func() *Expr { return g.matchU(t, d) }})
 	}
-	if g.has(FMatchS) {
+	if g.has(FMatchS) && top {
 		alts = append(alts, alt{1, func() *Expr { return g.matchS(t, d) }})
 	}
 	if g.has(FRecord) {
@@ -476,6 +488,9 @@ func (g *gen) expr(t *Type, d int) *Expr {
 		alts = append(alts, alt{5, func() *Expr {
 			e := &Expr{K: ESlice, ElemT: t.Elem(), T: t}
 			n := g.r.Intn(4)
+			if g.prof.Tiny && n == 0 {
+				n = 1
+			}
 			for i := 0; i < n; i++ {
 				e.Args = append(e.Args, g.expr(t.Elem(), d-1))
 			}
@@ -945,6 +960,9 @@ func (g *gen) funExprFree(rt *Type, d int) (*Expr, *Type) {
 // nonEmptySlice: a literal with at least n elements (arguments of partial library functions).
 func (g *gen) sliceLit(t *Type, min, d int) *Expr {
 	e := &Expr{K: ESlice, ElemT: t.Elem(), T: t}
+	if g.prof.Tiny && min == 0 {
+		min = 1
+	}
 	n := min + g.r.Intn(3)
 	for i := 0; i < n; i++ {
 		e.Args = append(e.Args, g.expr(t.Elem(), d-1))
@@ -1133,6 +1151,76 @@ func (g *gen) papArg(t *Type, d int) *Expr {
 		return eBin(Choose(g.r, []string{"<", ">"}), g.leaf(tInt, 0), eInt(g.intLit()), tBool)
 	}
 	return g.leaf(t, 0)
+}
+
+// funTypeOK: can a value of function type t always be produced in this profile?
+func (g *gen) funTypeOK(t *Type) bool {
+	ps, rt := t.FunParams(), t.FunRet()
+	if g.has(FLambda) && !g.prof.Tiny && rt.K != TFun {
+		ok := true
+		for _, p := range ps {
+			if !p.FirstOrder() {
+				ok = false
+			}
+		}
+		if ok {
+			return true
+		}
+	}
+	if g.has(FPartial) && len(ps) == 1 && ps[0].Equal(rt) && isScalar(rt) && g.sayFun(rt) != nil {
+		return true // say "tag" : int -> int, sayb, says
+	}
+	for _, f := range g.funs {
+		if f.t.Equal(t) && !f.recursive {
+			return true
+		}
+	}
+	return false
+}
+
+// randFunType: a function type over first-order types that funTypeOK accepts (nil when none).
+func (g *gen) randFunType(allowUnitRet bool) *Type {
+	for tries := 0; tries < 6; tries++ {
+		var qs []*Type
+		for k := 0; k < 1+g.r.Intn(2); k++ {
+			qs = append(qs, g.dataType(1))
+		}
+		rt := g.dataType(1)
+		if allowUnitRet && g.r.Chance(1, 5) {
+			rt = tUnit
+		}
+		if g.prof.Tiny || !g.has(FLambda) {
+			// only what named functions and partial applications provide
+			var cands []*Type
+			for _, f := range g.funs {
+				if f.recursive {
+					continue
+				}
+				if f.helper {
+					cands = append(cands, tFun(f.t.FunParams()[1:], f.t.FunRet()))
+				} else if f.t.FunParams()[0].K != TUnit && f.t.FunRet().K != TFun {
+					ok := true
+					for _, p := range f.t.FunParams() {
+						if !p.FirstOrder() {
+							ok = false
+						}
+					}
+					if ok && (allowUnitRet || f.t.FunRet().K != TUnit) {
+						cands = append(cands, f.t)
+					}
+				}
+			}
+			if len(cands) == 0 {
+				return nil
+			}
+			return Choose(g.r, cands)
+		}
+		t := tFun(qs, rt)
+		if g.funTypeOK(t) {
+			return t
+		}
+	}
+	return nil
 }
 
 // funExpr: a value of function type t.
@@ -1525,7 +1613,9 @@ func (g *gen) block(t *Type, d int, maxStmts int) *Block {
 			}
 		}
 	}
+	g.atBlock = true
 	b.E = g.expr(t, d)
+	g.atBlock = false
 	if len(b.Stmts) > 0 && b.Stmts[0].K == SDo && startsWithInterp(b.Stmts[0].E) {
 		// fc misjudges the column of a $"…" token: keep it off the first line of a multi-line block
 		b.Stmts = append([]*Stmt{{K: SDo, E: eExt("frt.Println", []*Expr{eStr(g.tag())}, tUnit)}}, b.Stmts...)
@@ -1559,7 +1649,9 @@ func (g *gen) stmt(d int) []*Stmt {
 		{5, func() []*Stmt { // let of a data value
 			t := g.dataType(2)
 			g.inLet++
+			g.atBlock = true
 			e := g.expr(t, d-1)
+			g.atBlock = false
 			g.inLet--
 			n := g.freshVar()
 			v := g.push(n, t)
@@ -1621,12 +1713,10 @@ func (g *gen) stmt(d int) []*Stmt {
 	}
 	if (g.has(FLambda) || g.has(FPartial)) && d > 1 {
 		alts = append(alts, sa{1, func() []*Stmt { // let of a closure: lambda or partial application
-			var pts []*Type
-			for i := 0; i < 1+g.r.Intn(2); i++ {
-				pts = append(pts, g.dataType(1))
+			t := g.randFunType(false) // not unit: (let x E) with a partial application of a unit function is outside FORMAT.md
+			if t == nil {
+				return nil
 			}
-			rt := g.dataType(1) // not unit: (let x E) with a partial application of a unit function is outside FORMAT.md
-			t := tFun(pts, rt)
 			g.inLet++
 			e := g.funExpr(t, d-1)
 			g.inLet--
@@ -1730,16 +1820,9 @@ func (g *gen) funDecl(idx int) *Decl {
 	for i := 0; i < np; i++ {
 		var pt *Type
 		if g.has(FFunParams) && g.r.Chance(1, 6) {
-			var qs []*Type
-			for k := 0; k < 1+g.r.Intn(2); k++ {
-				qs = append(qs, g.dataType(1))
-			}
-			rt := g.dataType(1)
-			if g.r.Chance(1, 5) {
-				rt = tUnit
-			}
-			pt = tFun(qs, rt)
-		} else {
+			pt = g.randFunType(true)
+		}
+		if pt == nil {
 			pt = g.dataType(2)
 		}
 		n := g.freshVar()
@@ -1747,12 +1830,17 @@ func (g *gen) funDecl(idx int) *Decl {
 		pts = append(pts, pt)
 		vs = append(vs, g.push(n, pt))
 	}
+	d.Ret = nil
 	switch {
 	case g.r.Chance(1, 5):
 		d.Ret = tUnit
 	case g.has(FFunParams) && g.has(FPartial) && !recursive && g.r.Chance(1, 12):
-		d.Ret = tFun([]*Type{g.dataType(1)}, g.dataType(1))
-	default:
+		d.Ret = g.randFunType(false)
+		if d.Ret != nil && len(d.Ret.FunParams()) != 1 {
+			d.Ret = nil
+		}
+	}
+	if d.Ret == nil {
 		d.Ret = g.dataType(2)
 	}
 	f.t = tFun(pts, d.Ret)
